@@ -389,7 +389,10 @@ def gen_dicts(rng, spec, quick):
         full_flat[dk] = als[i % len(als)]
     full_flat["E"] = 5
     dicts = [{}, _nest(full_flat)]
-    for k in list(full_flat):                                   # each single key missing
+    missing = list(full_flat)                                   # each single key missing
+    if quick:
+        missing = rng.sample(missing, 6)
+    for k in missing:
         f = dict(full_flat)
         del f[k]
         dicts.append(_nest(f))
@@ -1134,7 +1137,9 @@ class ModuleRun:
                     if ms is None:
                         continue
                     term = R.g_node(ms)
-                    for o, ob in zip(self.dicts, rec["obs" + tag]):
+                    for i, (o, ob) in enumerate(zip(self.dicts, rec["obs" + tag])):
+                        if tag == "B" and self.ctx.quick and i % 3:
+                            continue            # warm state: a sample of the dictionaries in the quick tier
                         self.model_case(f"observe {self.ftable} {term} {R.g_dict(o)}", R.s_obs(ob),
                                         dict(what="observe", graph=name, state=tag, options=o))
             nontriv = self.graph_nontrivial(rec)
@@ -1629,7 +1634,7 @@ def run_specs(ctx, specs_dicts, hashseeds, only=None, quick=True):
         mr.load_module()
         mr.phase_ab()
         runs.append(mr)
-    protos_warm = [0, 5] if quick else PROTOCOLS
+    protos_warm = [5] if quick else PROTOCOLS
     for mr in runs:
         # aliases / registration dictionaries are needed by the child jobs
         for name, rec in mr.graphs.items():
@@ -1641,7 +1646,7 @@ def run_specs(ctx, specs_dicts, hashseeds, only=None, quick=True):
     children = []
     for hi, hs in enumerate(hashseeds):
         full = (hi == 0) or not quick
-        per_mod = [mr.child_items(PROTOCOLS if full else [2, 5], (protos_warm if full else protos_warm[:1]))
+        per_mod = [mr.child_items(PROTOCOLS if full else [2], (protos_warm if full else protos_warm[:1]))
                    for mr in runs]
         n_chunks = min(len(per_mod), (3 if quick else 6) if full else (1 if quick else 6))
         for c in range(n_chunks):
@@ -1731,7 +1736,7 @@ def _around(a, b, width=260):
 def run(ctx):
     rng = ctx.rng
     quick = ctx.quick
-    n_mod = 5 if quick else 40
+    n_mod = 4 if quick else 40
     tagid = f"{ctx.seed}_{os.getpid()}"
     specs = []
     for form in ("explicit", "decorator"):
